@@ -217,6 +217,27 @@ CLASSES["vmat3"] = CLASSES["vmat"]
 CLASSES["vmat4"] = CLASSES["vmat"]
 H5_CLASSES += ["vmat3", "vmat4", "tp"]
 VM_AXES = {"vmat": 2, "vmat3": 3, "vmat4": 4}
+# the base classes of pybrops.core.mat: every one has a to_hdf5 / from_hdf5 / __copy__ / __deepcopy__ of its OWN
+# (copies of the anchored mechanism), plus the (n,n,t,t) progeny covariance matrices
+BASE_CLASSES = {
+    "dmat": {"fields": ["mat"], "ctor": ["mat"]},
+    "tmat": {"fields": ["mat", "taxa", "taxa_grp"] + TAXA_META, "ctor": ["mat", "taxa", "taxa_grp"]},
+    "vrmat": {"fields": ["mat"] + VRNT + VRNT_META, "ctor": ["mat"] + VRNT},
+    "tvmat": {"fields": ["mat", "taxa", "taxa_grp"] + VRNT + TAXA_META + VRNT_META, "ctor": ["mat", "taxa", "taxa_grp"] + VRNT},
+    "trmat": {"fields": ["mat", "trait"], "ctor": ["mat", "trait"]},
+    "ttmat": {"fields": ["mat", "taxa", "taxa_grp", "trait"] + TAXA_META, "ctor": ["mat", "taxa", "taxa_grp", "trait"]},
+    "sttmat": CLASSES["vmat"],
+    "sq4": CLASSES["vmat"],
+}
+BASE_PATHS = {"dmat": "pybrops.core.mat.DenseMatrix", "tmat": "pybrops.core.mat.DenseTaxaMatrix",
+              "vrmat": "pybrops.core.mat.DenseVariantMatrix", "tvmat": "pybrops.core.mat.DenseTaxaVariantMatrix",
+              "trmat": "pybrops.core.mat.DenseTraitMatrix", "ttmat": "pybrops.core.mat.DenseTaxaTraitMatrix",
+              "sttmat": "pybrops.core.mat.DenseSquareTaxaTraitMatrix",
+              "sq4": "pybrops.core.mat.DenseSquareTaxaSquareTraitMatrix"}
+CLASSES.update(BASE_CLASSES)
+H5_CLASSES += list(BASE_CLASSES)
+TAXA_CLASSES = ("pgmat", "gmat", "bvmat", "cmat", "vmat", "vmat3", "vmat4", "tmat", "tvmat", "ttmat", "sttmat", "sq4")
+VRNT_CLASSES = ("pgmat", "gmat", "vrmat", "tvmat")
 
 _M = {}
 
@@ -256,6 +277,9 @@ def _mods():
     from pybrops.popgen.gmap.ExtendedGeneticMap import ExtendedGeneticMap
     import pandas
     _M.update({"sgmap": StandardGeneticMap, "egmap": ExtendedGeneticMap, "pandas": pandas})
+    import importlib
+    for k, path in BASE_PATHS.items():
+        _M[k] = getattr(importlib.import_module(path), path.split(".")[-1])
     return _M
 
 
@@ -300,6 +324,10 @@ PYCLS = {
     "vmat3": ["pybrops.model.vmat.DenseThreeWayDHAdditiveGenicVarianceMatrix"],
     "vmat4": ["pybrops.model.vmat.DenseFourWayDHAdditiveGenicVarianceMatrix"],
     "algmod": ["pybrops.model.gmod.rrBLUPModel0"],
+    "dmat": ["pybrops.core.mat.DenseSquareMatrix"],
+    "tmat": ["pybrops.core.mat.DenseSquareTaxaMatrix"],
+    "sq4": ["pybrops.model.pcvmat.DenseTwoWayDHAdditiveProgenyGeneticCovarianceMatrix",
+            "pybrops.model.pcvmat.DenseDihybridDHAdditiveProgenyGeneticCovarianceMatrix"],
 }
 
 
@@ -396,8 +424,8 @@ def fields_of(cls, obj):
     return {k: enc_item(getattr(obj, k)) for k in CLASSES[cls]["fields"]}
 
 
-# the model follows /repo HEAD (fixes 93761174 = D8 and 9631bba1 = D29 included).  To compare a tree in
-# which one of them is reverted with the matching pre-repair model: C16_PREREPAIR=D8 (or D29, or D8,D29)
+# the model follows /repo HEAD (fixes 93761174 = D8, 9631bba1 = D29 and the repair of D30 included).  To compare a
+# tree in which one of them is reverted with the matching pre-repair model: C16_PREREPAIR=D8 (or D29, D30, or D8,D29)
 MODEL_PREREPAIR = [x for x in os.environ.get("C16_PREREPAIR", "").split(",") if x]
 
 def arrays_of(cls, obj):
@@ -884,6 +912,46 @@ def gen_obj(rng, cls, shape=None, rich=None, width=None, hard=False, csv=False, 
             fields["ploidy"] = ds("i64", [], [rng.choice([1, 2, 2, 4])])
         grouped = rng.random() < 0.5
         shape = (m, n, p)
+    elif cls in ("dmat", "tmat", "vrmat", "tvmat", "trmat", "ttmat", "sttmat", "sq4"):
+        # base classes: the first two axes are square for dmat / tmat (so that the Square* subclasses accept the
+        # same object); taxa along axis 0, variants along axis 0 (vrmat) or 1 (tvmat), traits along axis 0 (trmat),
+        # axis 1 (ttmat), the last axis (sttmat) or the last two (sq4)
+        n, t = shape or (rng.randint(1, 3), rng.randint(1, 3))
+        p = rng.randint(1, 4)
+        sh = {"dmat": [n, n] + ([t] if rng.random() < 0.5 else []), "tmat": [n, n], "vrmat": [p, t], "tvmat": [n, p],
+              "trmat": [t, n], "ttmat": [n, t], "sttmat": [n, n, t], "sq4": [n, n, t, t]}[cls]
+        size = 1
+        for x in sh:
+            size *= x
+        fields["mat"] = ds(fdt, sh, fvals(size))
+        if cls in ("tmat", "tvmat", "ttmat", "sttmat", "sq4"):
+            if opt():
+                fields["taxa"] = ds("str", [n], names(n))
+            if opt():
+                fields["taxa_grp"] = ds(idt, [n], [big(rng.randint(1, 3)) for _ in range(n)])
+        if cls in ("trmat", "ttmat", "sttmat", "sq4") and opt():
+            fields["trait"] = ds("str", [t], traits(t))
+        if cls in ("vrmat", "tvmat"):
+            if opt():
+                fields["vrnt_chrgrp"] = ds(idt, [p], [big(rng.randint(1, 3)) for _ in range(p)])
+            if opt():
+                fields["vrnt_phypos"] = ds(idt, [p], [big(rng.randint(1, 10 ** 9)) for _ in range(p)])
+            if opt():
+                fields["vrnt_name"] = ds("str", [p], names(p, "m"))
+            if opt():
+                fields["vrnt_genpos"] = ds("f64", [p], [_dy(rng, 0, 8) for _ in range(p)])
+            if opt():
+                fields["vrnt_xoprob"] = ds("f64", [p], [canon.enc(Fraction(rng.randint(0, 8), 16)) for _ in range(p)])
+            if opt():
+                fields["vrnt_hapgrp"] = ds(idt, [p], [big(rng.randint(0, 4)) for _ in range(p)])
+            if opt():
+                fields["vrnt_hapalt"] = ds("str", [p], [rng.choice(["A", "C", "ÅT", "<DEL>"]) for _ in range(p)])
+            if opt():
+                fields["vrnt_hapref"] = ds("str", [p], [rng.choice(["A", "C", "G", "t"]) for _ in range(p)])
+            if opt():
+                fields["vrnt_mask"] = ds("bool", [p], [rng.randint(0, 1) for _ in range(p)])
+        grouped = rng.random() < 0.5
+        shape = (n, t)
     elif cls in ("bvmat", "cmat", "vmat", "vmat3", "vmat4"):
         n, t = shape or (rng.randint(1, 4) if cls in ("bvmat", "cmat", "vmat") else rng.randint(1, 3) if cls == "vmat3"
                          else rng.randint(1, 2), rng.randint(1, 3))
@@ -1004,7 +1072,10 @@ class C16(Prop):
                       "layouts incl. the k-way long layout); CSV text is covered by the frame models through the "
                       "abstract dialect contract (cell printing/parsing itself is trusted); interpolation splines "
                       "of genetic maps are compared by behaviour (Spec only, scipy is not modelled)")
-    RULE = ("h5 (34%): histories of 1-6 to_hdf5 calls on one file (11 classes + 11 subclasses; optional label arrays "
+    RULE = ("h5 (34%): histories of 1-6 to_hdf5 calls on one file (19 classes — the 11 listed in the property, the 7 base "
+            "classes of pybrops.core.mat that carry their own copy of the persistence / copy methods, the (n,n,t,t) "
+            "covariance matrices — + 15 subclasses; the parameter-free TruePhenotyping under fresh, nested, oddly spelled "
+            "and occupied named groups, overwrite=False included; optional label arrays "
             "present/absent, grouped or not or with hand-assigned group metadata, labels that are not NFC / NFKC, padded, "
             "case pairs, number- and NA-looking, 4-byte, long; non-ASCII and odd spellings of nested groups; floats at "
             "1e-8 / 1e-5 / 25000+-small / 1e9+-0.5 / 1+-1e-9, whole arrays within a tolerance of 0 or 1, ties, NaN and "
@@ -1014,7 +1085,8 @@ class C16(Prop):
             "object saved, changed in place or re-labelled, saved again; an object read back, changed and re-saved) "
             "with interleaved reads and a final from_hdf5 of every location; non-trivial = a location written at "
             "least twice or >= 5 fields present.  "
-            "copy (18%, stratified over 15 classes x 5 ways): copy.copy / copy.deepcopy / .copy() / .deepcopy() after a "
+            "copy (18%, stratified over 23 classes x 5 ways; the corpus holds every class x way once on a fully labelled grouped "
+            "object): copy.copy / copy.deepcopy / .copy() / .deepcopy() after a "
             "short history of in-place steps (statistics, sort / group / prune, buffers overwritten, attributes "
             "re-assigned); genetic maps with auto-built, user-supplied, stale or absent splines of every kind / fill "
             "value; observable equality of every attribute incl. nested objects and interpolators, then EVERY array "
@@ -1023,11 +1095,12 @@ class C16(Prop):
             "with and without aliased attributes, deep-copied by copy.deepcopy and by .deepcopy().  "
             "frame (26%, stratified over 9 classes x pandas/CSV): to_pandas/from_pandas or to_csv/from_csv (dict "
             "variants for models) with matching options (label columns on/off, renamed columns, separators, M/cM "
-            "units), two- / three- / four-way variance matrices and their genic / dihybrid twins, sorted and "
+            "units; on the reading side the columns named by POSITION in a quarter of the cases), two- / three- / four-way variance matrices and their genic / dihybrid twins, sorted and "
             "unsorted labels, any memory layout, exported twice with an in-place change in between.  "
             "vcf (16%): VCF text (plain or gzip) with 1-4 samples x 1-7 records (corpus: 131 samples, 300 records), "
             "unsorted chromosomes, position ties, SNPs / multi-allelic / indels / symbolic / no ALT, FILTER, QUAL, INFO "
-            "and extra FORMAT fields, missing IDs, phased and unphased class, with and without grouping; one file in "
+            "and extra FORMAT fields, missing IDs, ';'-separated identifier lists, duplicated / case-paired / number- and NA-looking "
+            "identifiers and sample names, coordinates at the end of the 32-bit range, phased and unphased class, with and without grouping; one file in "
             "eight has unphased or missing calls (correspondence only); non-trivial = >= 2 samples, >= 2 records, "
             ">= 2 distinct coordinates")
     TRUSTED = ["h5py: dataset read = dataset written (variable-length strings come back as bytes); "
@@ -1051,7 +1124,11 @@ class C16(Prop):
                    "values are not None; labels hold no NUL character (h5py refuses them)",
                    "floats are binary64 values carried exactly (as rationals)",
                    "overwrite=False is exercised on fresh locations and on locations holding an object of the same "
-                   "class (where the call must refuse and leave the file unchanged), not across classes",
+                   "class (where the call must refuse and leave the file unchanged; TruePhenotyping, which stores nothing, "
+                   "is accepted), not across classes",
+                   "an HDF5 group made on purpose (require_group) is a marker entry of the model's path -> dataset map; "
+                   "groups that create_dataset makes implicitly are not tracked (they never become empty in a history "
+                   "of complete to_hdf5 calls)",
                    "data-frame layouts: label arrays that the layout has no way to omit are present (trait names of "
                    "a breeding-value matrix, taxa of coancestry / variance matrices); variance-matrix labels that "
                    "are not sorted come back in sorted label order (the long layout is canonical in label order: "
@@ -1068,7 +1145,8 @@ class C16(Prop):
                    "delivers them (missing = -1) and ignores the phase flag, which is checked as model = code only; a "
                    "chromosome name that is not an integer literal is outside too (the matrix stores integer "
                    "chromosomes; the import is refused with ValueError and the model says so); a record without ID is "
-                   "inside, its name is not compared (the code stores 'None')",
+                   "inside, its name is not compared (the code stores 'None'); the ID column is reproduced as ONE string, a "
+                   "';'-separated list of identifiers included",
                    "a genetic map is also what it interpolates: copies must reproduce the spline (knots, kind, fill "
                    "value, values at probe points) whether it was built from the map's current arrays or not; a "
                    "frame round trip with the default spline options reproduces the interpolation of a map whose "
@@ -1183,7 +1261,55 @@ class C16(Prop):
             {"kind": "frame", "cls": "sgmap", "ctx": 0, "via": "csv", "opts": {"units": "cM"},
              "fields": {"vrnt_chrgrp": ds("i64", [4], [2, 1, 1, 2]), "vrnt_phypos": ds("i64", [4], [10, 50, 20, 5]),
                         "vrnt_genpos": ds("f64", [4], ["7/64", "1/2", "1/4", "1/64"])}},
-        ] + self._corpus3()
+        ] + self._corpus3() + self._corpus4() + self._corpus_copies()
+
+    def _corpus_copies(self):
+        """every class x every way of copying, on a fully labelled, grouped object (fixed stream): the random
+        part of a run rotates through the same pairs with other contents, options and histories"""
+        import random
+        rng = random.Random(1604)
+        out = []
+        for cls in list(CLASSES):
+            for how in ("copy.copy", "copy.deepcopy", "obj.copy", "obj.deepcopy"):
+                fields, ctx, grouped, shape = gen_obj(rng, cls, rich=1.0)
+                var = {"spline": {"mode": "auto", "kind": "linear", "fill": None}} if cls in ("sgmap", "egmap") else {}
+                out.append({"kind": "copy", "cls": cls, "fields": fields, "ctx": ctx, "grouped": True, "how": how, "var": var})
+        return out
+
+    def _corpus4(self):
+        """round 4: every class (and base class) with group metadata: a GROUPED, labelled object and then an
+        UNGROUPED bare one of the same shape at one location (each class hands its own dictionary to the
+        writer); the same the other way round; the protocols next to them"""
+        w = lambda cls, g, f, **kw: dict({"t": "w", "cls": cls, "group": g, "ow": True, "fields": f, "ctx": 0,
+                                         "grouped": False, "via": "name"}, **kw)
+        n, p, t = 3, 4, 2
+        taxa = {"taxa": ds("str", [n], ["c", "a", "b"]), "taxa_grp": ds("i64", [n], [2, 1, 2])}
+        vrnt = {"vrnt_chrgrp": ds("i64", [p], [2, 1, 1, 2]), "vrnt_phypos": ds("i64", [p], [7, 9, 3, 1]),
+                "vrnt_name": ds("str", [p], ["m1", "m2", "m3", "m4"])}
+        trait = {"trait": ds("str", [t], ["yld", "hté"])}
+        f64 = lambda sh: ds("f64", sh, [canon.enc(Fraction((7 * i) % 23, 4)) for i in range(int(numpy.prod(sh)))])
+        i8 = lambda sh: ds("i8", sh, [(5 * i) % 3 for i in range(int(numpy.prod(sh)))])
+        shapes = {
+            "pgmat": (i8([2, n, p]), dict(taxa, **vrnt)), "gmat": (i8([n, p]), dict(taxa, **vrnt)),
+            "bvmat": (f64([n, t]), dict(taxa, **trait)), "cmat": (f64([n, n]), taxa),
+            "vmat": (f64([n, n, t]), dict(taxa, **trait)), "vmat3": (f64([n, n, n, t]), dict(taxa, **trait)),
+            "vmat4": (f64([2, 2, 2, 2, t]), {"taxa": ds("str", [2], ["b", "a"]), "taxa_grp": ds("i64", [2], [2, 1]), **trait}),
+            "tmat": (f64([n, n]), taxa), "vrmat": (f64([p, t]), vrnt), "tvmat": (f64([n, p]), dict(taxa, **vrnt)),
+            "ttmat": (f64([n, t]), dict(taxa, **trait)), "sttmat": (f64([n, n, t]), dict(taxa, **trait)),
+            "sq4": (f64([n, n, t, t]), dict(taxa, **trait)),
+        }
+        out = []
+        for i, (cls, (mat, labels)) in enumerate(shapes.items()):
+            base = {"mat": mat}
+            if cls == "bvmat":
+                base.update({"location": ds("f64", [t], [1, 2]), "scale": ds("f64", [t], [2, "1/2"])})
+            rich = dict(base, **labels)
+            g = ["a/b", None, "grüppe/β", "x//y"][i % 4]
+            var = {"pycls": PYCLS[cls][i % len(PYCLS[cls])]} if cls in PYCLS and i % 2 else {}
+            ops = [w(cls, g, rich, grouped=True, var=var), w(cls, g, base, var=var), w(cls, g, rich, grouped=True, var=var),
+                   w(cls, g, dict(base, taxa=labels.get("taxa")) if "taxa" in labels else base, var=var)]
+            out.append({"kind": "h5", "ops": ops[:2] if i % 2 else ops})
+        return out
 
     def _corpus3(self):
         """round 3: labels that are not NFC, memory layouts, interpolation splines, one live object saved
@@ -1264,10 +1390,17 @@ class C16(Prop):
              "var": {"pycls": PYCLS["bvmat"][0], "layout": "F"}},
             {"kind": "frame", "cls": "vmat", "fields": vm, "ctx": 0, "via": "pandas",
              "opts": {"grp": True, "sorted": True, "twice": True}, "var": {}},
-            # finding D30: TruePhenotyping has nothing to store, so a named group is never created and from_hdf5
-            # refuses it; at the base group and below an existing group the round trip holds
+            # regression D30 (repaired: TruePhenotyping.to_hdf5 creates the named group): the protocol has nothing to
+            # store, so before the repair a named group was never created and from_hdf5 refused it (LookupError);
+            # fresh nested group, odd spellings, overwrite=False on a fresh and on an occupied group, twice to one
+            # group, next to / below / above other objects, through an open file and a Path
             {"kind": "h5", "ops": [w("tp", "prot/true", {}, ctx=2)]},
             {"kind": "h5", "ops": [w("tp", None, {}, ctx=2), w("bvmat", "a/b", bv), w("tp", "a", {}, ctx=1)]},
+            {"kind": "h5", "ops": [w("tp", "/x//y/", {}, ctx=1, via="open"), {"t": "r", "cls": "tp", "group": "x/./y", "ctx": 1},
+                                   w("tp", "x/y", {}, ctx=3, ow=False, via="path"), w("tp", "x/y/z", {}, ctx=2, ow=False),
+                                   w("bvmat", "x", bv), w("tp", "grüppe/β", {}, ctx=1), w("tp", "x/y", {}, ctx=2)]},
+            {"kind": "h5", "ops": [w("bvmat", "p/q", bv), w("tp", "p/q", {}, ctx=2), w("bvmat", "p/q", dict(bv, taxa=None)),
+                                   {"t": "r", "cls": "tp", "group": "p/q/", "ctx": 2}]},
             # ONE live object: saved, changed in place (buffer overwritten, labels dropped), saved again
             {"kind": "h5", "ops": [
                 w("bvmat", "x", bv, id=0),
@@ -1289,6 +1422,22 @@ class C16(Prop):
             {"kind": "h5", "ops": [w("cmat", "m", mags)]},
             {"kind": "frame", "cls": "cmat", "fields": dict(mags, mat=ds("f64", [3, 3], mags["mat"]["v"][:7] + [canon.enc(2e-8), canon.enc(1 / 3)])),
              "ctx": 0, "via": "csv", "opts": {"taxa_col": "taxa", "taxa_grp_col": None}},
+            # VCF: identifier lists (';'), separators of other formats, case pairs, number- / NA-looking identifiers
+            # and sample names, duplicated identifiers, coordinates at the end of the 32-bit range — both importers
+            {"kind": "vcf", "samples": ["007", "NA", " lead", "Zoe\u0308"], "group": True, "phased": False, "recs": [
+                {"chrom": 2, "pos": 2 ** 31 - 1, "id": "rs12;ss9001", "calls": [[0, 1], [1, 1], [1, 0], [0, 0]]},
+                {"chrom": 2 ** 31 + 5, "pos": 7, "id": "AX-100", "calls": [[1, 1], [0, 0], [0, 1], [1, 0]]},
+                {"chrom": 1, "pos": 400, "id": "m2_400;alt_name;x", "calls": [[1, 0], [0, 1], [0, 0], [1, 1]]},
+                {"chrom": 1, "pos": 400, "id": "Rs12", "calls": [[0, 0], [1, 0], [1, 1], [0, 1]]},
+                {"chrom": 1, "pos": 3, "id": "rs12", "calls": [[0, 1], [0, 1], [1, 0], [1, 1]]},
+                {"chrom": 1, "pos": 2, "id": "rs12", "calls": [[1, 1], [0, 1], [0, 0], [1, 0]]}]},
+            {"kind": "vcf", "samples": ["q\"uote", "com,ma", "semi;colon"], "group": False, "phased": True, "recs": [
+                {"chrom": 1, "pos": 5, "id": "a;b;c", "calls": [[0, 1], [1, 1], [1, 0]]},
+                {"chrom": 1, "pos": 6, "id": "007", "calls": [[1, 1], [0, 0], [0, 1]]},
+                {"chrom": 1, "pos": 7, "id": "None", "calls": [[1, 0], [0, 1], [0, 0]]},
+                {"chrom": 1, "pos": 8, "id": None, "calls": [[0, 0], [1, 0], [1, 1]]},
+                {"chrom": 1, "pos": 9, "id": "x,y", "calls": [[0, 1], [0, 1], [1, 0]]},
+                {"chrom": 1, "pos": 10, "id": "chr1:12345_A/T", "calls": [[1, 1], [0, 1], [0, 0]]}]},
             # VCF: many records (> 255), many samples (> 127)
             {"kind": "vcf", "samples": ["a", "b"], "group": True, "phased": True, "recs": recs_many},
             {"kind": "vcf", "samples": many_samples, "group": False, "phased": False, "recs": [
@@ -1303,7 +1452,7 @@ class C16(Prop):
         opts = [("bump", k) for k in CLASSES[cls]["ctor"]
                 if has(k) and fields[k].get("sh") and k not in ("scale", "nrep", "var_env", "var_rep", "var_err",
                                                                   "taxa", "trait", "vrnt_name")]
-        if cls in ("pgmat", "gmat", "bvmat", "cmat", "vmat", "vmat3", "vmat4"):
+        if cls in TAXA_CLASSES:
             opts += [("relabel", "taxa")]
         if cls in ("pgmat", "gmat"):
             opts += [("call", "afreq"), ("call", "maf")]
@@ -1371,8 +1520,7 @@ class C16(Prop):
                     if shape is None or rng.random() < (0.1 if mixed else 0.25):
                         shape = None
                 else:
-                    # (the parameter-free protocol rarely: under a named group it only re-triggers finding D30)
-                    cls, shape = ("tp" if rng.random() < 0.03 else rng.choice([c for c in H5_CLASSES if c != "tp"])), None
+                    cls, shape = rng.choice(H5_CLASSES), None
                 rich = rng.choice([0.0, 0.3, 0.7, 1.0])
                 if key in richness and rng.random() < 0.5:
                     rich = 1.0 if richness[key] > 0 else 0.0
@@ -1393,7 +1541,7 @@ class C16(Prop):
             ops.append(op)
             written.append((wid, op["cls"], op["fields"], op["ctx"]))
             wid += 1
-            if op["ow"] or key not in state:
+            if op["ow"] or key not in state or op["cls"] == "tp":      # (the parameter-free protocol is never refused)
                 state[key] = (op["cls"], shape)
                 content[key] = (op["cls"], op["ctx"], op["fields"])     # what the location holds from now on
             if rng.random() < 0.3:
@@ -1492,6 +1640,8 @@ class C16(Prop):
         # export once, change the object in place, export again: the second export is what counts
         if (rnd // 2) % 3 == 1:
             opts["twice"] = True
+        if cls not in ("algmod", "adlgmod") and rng.random() < float(os.environ.get("C16_BYPOS", "0.25")):
+            opts["bypos"] = True
         var = self._gen_var(rng, cls, fields, shape, history=False)
         var.pop("spline", None)
         return {"kind": "frame", "cls": cls, "fields": fields, "ctx": ctx, "via": via, "opts": opts, "var": var}
@@ -1537,6 +1687,22 @@ class C16(Prop):
                                                                     (["u_d"] if cls == "adlgmod" else []))}
                 exp = (lambda: o.to_pandas_dict()) if via == "pandas" else (lambda: o.to_csv_dict(names, **sepw))
                 imp = (lambda df: C.from_pandas_dict(df)) if via == "pandas" else (lambda _: C.from_csv_dict(names, **sepw))
+            if opts.get("bypos") and cls not in ("algmod", "adlgmod"):
+                # the reading side names every column by its POSITION (an argument form the signatures allow):
+                # the positions of the very columns that were written
+                import inspect
+                rk = dict(kr if cls in ("sgmap", "egmap") else kw)
+                reader = C.from_pandas if via == "pandas" else C.from_csv
+
+                def imp(df, rk=rk, reader=reader):
+                    cols = list(df.columns) if via == "pandas" else list(M["pandas"].read_csv(fn, nrows=0, **sepw).columns)
+                    eff = dict(rk)
+                    for nme, prm in inspect.signature(reader).parameters.items():
+                        if nme.endswith("_col"):
+                            v = rk.get(nme, prm.default)
+                            if isinstance(v, str) and v in cols:
+                                eff[nme] = cols.index(v)
+                    return reader(df, **eff) if via == "pandas" else reader(fn, **eff, **sepw)
             if opts.get("twice"):
                 exp()
                 k = self.TWICE_FIELD.get(cls)
@@ -1585,13 +1751,22 @@ class C16(Prop):
     }
 
     @staticmethod
-    def _vmat_sorted(b):
-        """the same labelled variance matrix with taxa and traits in increasing label order
-        (any number of taxa axes, traits last)"""
+    def _vmat_sorted(b, like=None):
+        """the same labelled variance matrix with taxa and traits in increasing label order (any number of taxa
+        axes, traits last) — or, given `like`, in the label order of that read-back when its labels are the same
+        sets: with unsorted labels the long layout cannot promise an order, only the same labelled data"""
         sh = b["mat"]["sh"]
         n, t, k = sh[0], sh[-1], len(sh) - 1
         po = sorted(range(n), key=lambda i: b["taxa"]["v"][i])
         to = sorted(range(t), key=lambda j: b["trait"]["v"][j])
+        try:
+            lt, lr = like["taxa"]["v"], like["trait"]["v"]
+            if sorted(lt) == sorted(b["taxa"]["v"]) and sorted(lr) == sorted(b["trait"]["v"]) \
+                    and len(set(lt)) == n and len(set(lr)) == t:
+                po = [b["taxa"]["v"].index(x) for x in lt]
+                to = [b["trait"]["v"].index(x) for x in lr]
+        except (TypeError, KeyError, AttributeError):
+            pass
         a = numpy.array(b["mat"]["v"], dtype=object).reshape(sh)
         for ax in range(k):
             a = numpy.take(a, po, axis=ax)
@@ -1694,7 +1869,7 @@ class C16(Prop):
             notes.append("type changed or exporting modified the source")
         want = obs["before"]
         if cls in self.VM_COLS and not case["opts"].get("sorted", True):
-            want = self._vmat_sorted(want)
+            want = self._vmat_sorted(want, obs["got"])
         for k in self.FRAME_FIELDS[cls]:
             if not self._ds_close(want[k], obs["got"][k]):
                 spec = False
@@ -1773,12 +1948,27 @@ class C16(Prop):
                 "detail": f"frame[{cls},{case['via']},{json.dumps(case['opts'])}] " + "; ".join(notes)[:1200]}
 
     # ------------------------------------------------------------------ VCF
+    # identifiers / sample names that survive only if the importer takes the column as it is: ';'-separated
+    # identifier lists (allowed by the VCF specification), separators of other formats, case pairs, number- /
+    # NA- / None-looking, not NFC, padded (sample names only: the header is split on tabs), long
+    VCF_IDS = ["rs12;ss9001", "a;b;c", "AX-100", "chr1:12345_A/T", "007", "1e5", "NA", "nan", "None", "Rs12", "rs12",
+               "x,y", "id=5", "snp|x", "#lead", "L" * 300, "Zo\u00eb", "Zoe\u0308", "\u2126", "a.b", "..", "-", "1_000",
+               "m2_400;alt_name;x", "RS12;rs12", "0", "-1", "True", "ss9001;rs12"]
+    VCF_SAMPLES = [x for x in HARD if "\t" not in x and "\n" not in x] + ["007", "NA", "1e5", "a=b", "x:y", "None", "0"]
+
     def _gen_vcf(self, rng):
         n = rng.randint(1, 4)
         p = rng.randint(1, 7)
+        hard = rng.random() < 0.4
         samples = _perm(rng, NAMES)[:n]
         nchr = rng.randint(1, 3)
         ids = _perm(rng, ["m%d" % i for i in range(20)] + ["mé", "ß9", "rs12"])[:p]
+        if hard:
+            samples = _perm(rng, self.VCF_SAMPLES)[:n]
+            ids = ([rng.choice(self.VCF_IDS[:3] + self.VCF_IDS[-6:])] + _perm(rng, self.VCF_IDS))[:p]
+            if p >= 2 and rng.random() < 0.25:
+                ids[-1] = ids[0]                    # identifiers need not be unique
+            ids = _perm(rng, ids)
         recs = []
         for j in range(p):
             # what kind of site: SNP, multi-allelic SNP, insertion / deletion, symbolic allele, no alternative at all;
@@ -1796,6 +1986,10 @@ class C16(Prop):
                 rec["info"] = "DP=%d" % rng.randint(0, 99)
             if rng.random() < 0.3:
                 rec["fmt"] = rng.choice(["GT:DP", "GT:GQ:DP"])
+            if hard and rng.random() < 0.3:         # coordinates at the ends of the 32-bit range htslib allows
+                rec["pos"] = rng.choice([1, 2 ** 31 - 1, 2 ** 31 - 2, 2 ** 30 + 7])
+            if hard and rng.random() < 0.15:
+                rec["chrom"] = rng.choice([2 ** 31 + 5, 2 ** 40, 1000003])
             recs.append(rec)
         # a fifth of the files have records without identifier (`.`); one file in twelve names a
         # chromosome with something that is not an integer literal (must be refused)
@@ -1944,7 +2138,8 @@ class C16(Prop):
     # ------------------------------------------------------------------ object graphs / copy.deepcopy
     def _gen_graph(self, rng):
         cls = rng.choice(["ge", "ge", "algmod", "adlgmod", "bvmat", "bvmat", "pgmat", "vmat", "sgmap",
-                          "tp", "gmat", "cmat", "egmap", "vmat3", "vmat4"])
+                          "tp", "gmat", "cmat", "egmap", "vmat3", "vmat4", "dmat", "tmat", "vrmat", "tvmat", "trmat",
+                          "ttmat", "sttmat", "sq4"])
         fields, ctx, grouped, _ = gen_obj(rng, cls, rich=rng.choice([0.5, 1.0]))
         # aliasing inside the source: two attributes holding one and the same array
         alias = rng.choice([None, None, "pair"])
@@ -1957,7 +2152,10 @@ class C16(Prop):
                    "vmat": ("taxa_grp_name", "taxa_grp_len"), "sgmap": ("vrnt_chrgrp_stix", "vrnt_chrgrp_len"),
                    "gmat": ("vrnt_chrgrp_name", "vrnt_chrgrp_len"), "cmat": ("taxa_grp_name", "taxa_grp_len"),
                    "egmap": ("vrnt_chrgrp_stix", "vrnt_chrgrp_len"), "vmat3": ("taxa_grp_stix", "taxa_grp_spix"),
-                   "vmat4": ("taxa_grp_name", "taxa_grp_len")}
+                   "vmat4": ("taxa_grp_name", "taxa_grp_len"), "tmat": ("taxa_grp_name", "taxa_grp_len"),
+                   "tvmat": ("vrnt_chrgrp_name", "vrnt_chrgrp_len"), "vrmat": ("vrnt_chrgrp_stix", "vrnt_chrgrp_len"),
+                   "ttmat": ("taxa_grp_stix", "taxa_grp_len"), "sttmat": ("taxa_grp_name", "taxa_grp_len"),
+                   "sq4": ("taxa_grp_stix", "taxa_grp_spix")}
 
     def _impl_graph(self, case):
         cls = case["cls"]
@@ -2065,16 +2263,17 @@ class C16(Prop):
         opts = []
         if arrays:
             opts += [("bump", k) for k in arrays if k not in ("scale", "nrep", "var_env", "var_rep", "var_err")]
-        if cls in ("pgmat", "gmat", "bvmat", "cmat", "vmat", "vmat3", "vmat4"):
+        if cls in TAXA_CLASSES:
             if has("taxa"):
                 opts += [("call", "sort_taxa"), ("relabel", "taxa")]
             if has("taxa_grp"):
                 opts += [("call", "group_taxa")]
             if has("taxa"):
                 opts += [("none", "taxa")]
-        if cls in ("pgmat", "gmat"):
+        if cls in VRNT_CLASSES:
             if has("vrnt_chrgrp") and has("vrnt_phypos"):
                 opts += [("call", "sort_vrnt"), ("call", "group_vrnt")]
+        if cls in ("pgmat", "gmat"):
             opts += [("call", "afreq"), ("call", "maf")]
         if cls == "bvmat":
             opts += [("call", "tmean"), ("call", "tstd"), ("call", "unscale")]
@@ -2224,6 +2423,8 @@ class C16(Prop):
         live = {}               # write id -> the live object that was written
         got_live = {}           # read id -> the live object that was read
         snap = {}               # location -> (concrete class, generic state of the object when it was written)
+        live_ctx = {}           # write id -> trait count of the genomic model the live object is bound to
+        got_ctx = {}            # read id -> the same for an object that was read back
 
         def read(C, group, via, kw):
             if via == "open":
@@ -2253,16 +2454,20 @@ class C16(Prop):
                     try:
                         if "reuse" in op:
                             obj = live[op["reuse"]]
+                            wctx = live_ctx[op["reuse"]]
                         elif "from_read" in op:
                             obj = got_live[op["from_read"]]
+                            wctx = got_ctx[op["from_read"]]
                         else:
                             obj = build(op["cls"], op["fields"], op.get("ctx", 0), op.get("grouped", False), op.get("var"))
+                            wctx = op.get("ctx", 0)
                         for e in op.get("edit") or []:
                             apply_edit(obj, e)
                     except KeyError:
                         res.append({"t": "w", "want": None, "raised": "skipped: the object of an earlier step is missing"})
                         continue
                     live[op.get("id", i)] = obj
+                    live_ctx[op.get("id", i)] = wctx
                     want = fields_of(op["cls"], obj)
                     st = state_of(obj)
                     via = op.get("via", "open" if op.get("open") else "name")
@@ -2272,25 +2477,26 @@ class C16(Prop):
                                 obj.to_hdf5(h5, op["group"], overwrite=op["ow"])
                         else:
                             obj.to_hdf5(pathlib.Path(fn) if via == "path" else fn, op["group"], overwrite=op["ow"])
-                        res.append({"t": "w", "want": want, "raised": None,
+                        res.append({"t": "w", "want": want, "raised": None, "ctx": wctx,
                                     "src_diff": diff_state(st, state_of(obj))})
                         last[loc] = i
-                        ctxs[loc] = op.get("ctx", 0)
+                        ctxs[loc] = wctx
                         snap[loc] = (type(obj), st)
                     except Exception as e:
-                        res.append({"t": "w", "want": want, "raised": f"{type(e).__name__}: {e}"[:200]})
+                        res.append({"t": "w", "want": want, "ctx": wctx, "raised": f"{type(e).__name__}: {e}"[:200]})
                 else:
                     ctx = ctxs.get(loc, op.get("ctx", 0))     # the model bound to the protocol stored there
                     got, out = read_op(op["cls"], op["group"], ctx, op.get("via", "name"))
                     if got is not None and "rid" in op:
                         got_live[op["rid"]] = got
+                        got_ctx[op["rid"]] = ctx
                     res.append(dict(out, t="r", ctx=ctx))
             # final sweep: every location is read back with the class of its last successful write
             sweep = []
             for loc, i in sorted(last.items(), key=lambda kv: kv[1]):
                 op = case["ops"][i]
-                got, out = read_op(op["cls"], op["group"], op.get("ctx", 0), ["name", "open", "path"][i % 3])
-                sweep.append(dict(out, t="r", cls=op["cls"], group=op["group"], ctx=op.get("ctx", 0)))
+                got, out = read_op(op["cls"], op["group"], ctxs.get(loc, op.get("ctx", 0)), ["name", "open", "path"][i % 3])
+                sweep.append(dict(out, t="r", cls=op["cls"], group=op["group"], ctx=ctxs.get(loc, op.get("ctx", 0))))
             return {"res": res, "sweep": sweep}
         finally:
             shutil.rmtree(d, ignore_errors=True)
@@ -2307,6 +2513,8 @@ class C16(Prop):
                 op = dict(op, ctx=r.get("ctx", op.get("ctx", 0)))
             elif r.get("want") is None:
                 continue          # a write whose object could not be obtained (flagged by the judge)
+            else:
+                op = dict(op, ctx=r.get("ctx", op.get("ctx", 0)))      # the model the live object is really bound to
             ops.append((op, r))
         for s in obs["sweep"]:
             ops.append(({"t": "r", "cls": s["cls"], "group": s["group"], "ctx": s["ctx"]}, s))
@@ -2398,11 +2606,7 @@ class C16(Prop):
                     if want is not None:
                         spec = False
                         notes.append(f"op{idx} from_hdf5 raised: {r['raised']}")
-                        # D30: the parameter-free protocol leaves no group behind (narrow: this class, a named
-                        # group, this refusal, and the model — the code as it is — predicts it)
-                        d30 = (op["cls"] == "tp" and loc != () and isinstance(m, dict) and "err" in m
-                               and "LookupError" in str(r["raised"]) and "must have group" in str(r["raised"]))
-                        sites.append("TruePhenotyping.from_hdf5" if d30 else "other")
+                        sites.append("from_hdf5 raised")
                     continue
                 if not (isinstance(m, dict) and "obj" in m and self._same_obj(m["obj"], r["got"])):
                     corr = False
@@ -2432,9 +2636,7 @@ class C16(Prop):
                 nw[norm_group(op["group"])] = nw.get(norm_group(op["group"]), 0) + 1
         nontriv = any(v >= 2 for v in nw.values()) or any(
             op["t"] == "w" and sum(1 for v in op["fields"].values() if v is not None) >= 5 for op in case["ops"])
-        nfail = sum(1 for x in notes)
-        site = "TruePhenotyping.from_hdf5" if (sites and all(x == "TruePhenotyping.from_hdf5" for x in sites)
-                                               and nfail == len(sites)) else ("other" if not spec else None)
+        site = "other" if not spec else None
         return {"corr": corr, "spec": spec, "nontrivial": nontriv, "site": site,
                 "detail": "h5 " + "; ".join(notes + cnotes)[:1500]}
 
@@ -2458,7 +2660,7 @@ class C16(Prop):
             sig["cls"] = case.get("cls")
         if case.get("kind") == "h5":
             sig["site"] = verdict.get("site")
-            sig["cond"] = "named_group_never_created" if verdict.get("site") == "TruePhenotyping.from_hdf5" else None
+            sig["cond"] = None
         return sig
 
     def shrink(self, case):
@@ -2472,11 +2674,15 @@ class C16(Prop):
                     yield {"kind": "h5", "ops": ops[:i] + ops[i + 1:]}
             for i, op in enumerate(ops):
                 if op["t"] == "w" and "reuse" not in op and "from_read" not in op:
+                    if (op.get("var") or {}).get("prep"):
+                        o2 = dict(op, var={k: v for k, v in op["var"].items() if k != "prep"})
+                        yield {"kind": "h5", "ops": ops[:i] + [o2] + ops[i + 1:]}
                     for k, v in op["fields"].items():
                         if v is not None and k not in ("mat", "beta", "u_a", "u_d", "location", "scale", "nenv",
                                                        "nrep", "ploidy"):
                             o2 = dict(op)
                             o2["fields"] = {kk: vv for kk, vv in op["fields"].items() if kk != k}
+                            o2["var"] = self._prep_for(o2["fields"], op.get("var"))
                             yield {"kind": "h5", "ops": ops[:i] + [o2] + ops[i + 1:]}
 
         if case["kind"] == "vcf":
@@ -2488,10 +2694,35 @@ class C16(Prop):
                     yield dict(case, samples=case["samples"][:i] + case["samples"][i + 1:],
                                recs=[dict(r, calls=r["calls"][:i] + r["calls"][i + 1:]) for r in case["recs"]])
         if case["kind"] == "copy":
+            if (case.get("var") or {}).get("prep"):
+                yield dict(case, var={k: v for k, v in case["var"].items() if k != "prep"})
+            if case["cls"] in ("sgmap", "egmap"):
+                return                                # a map needs all of its arrays
             for k, v in case["fields"].items():
                 if v is not None and k not in ("mat", "beta", "u_a", "u_d", "location", "scale", "nenv", "nrep",
                                                "ploidy"):
-                    yield dict(case, fields={kk: vv for kk, vv in case["fields"].items() if kk != k})
+                    f2 = {kk: vv for kk, vv in case["fields"].items() if kk != k}
+                    yield dict(case, fields=f2, var=self._prep_for(f2, case.get("var")))
+
+    PREP_NEEDS = {"sort_taxa": [["taxa"], ["taxa_grp"]], "group_taxa": [["taxa_grp"]],
+                  "sort_vrnt": [["vrnt_chrgrp", "vrnt_phypos"]], "group_vrnt": [["vrnt_chrgrp", "vrnt_phypos"]]}
+
+    @classmethod
+    def _prep_for(cls, fields, var):
+        """the in-place steps of `var` that still make sense for an object reduced to `fields` (a shrunk case must
+        stay a VALID input: `sort_taxa` without taxa raises on correct code as well)"""
+        if not var or not var.get("prep"):
+            return var
+        has = lambda k: fields.get(k) is not None
+        keep = []
+        for e in var["prep"]:
+            if e["t"] == "call" and e["k"] in cls.PREP_NEEDS and not any(all(has(k) for k in alt)
+                                                                          for alt in cls.PREP_NEEDS[e["k"]]):
+                continue
+            if e["t"] in ("bump", "set") and e["k"] in ("taxa", "trait", "hyperparams") and not has(e["k"]):
+                continue
+            keep.append(e)
+        return dict(var, prep=keep)
 
     def mutants(self):
         import sys
@@ -2791,7 +3022,119 @@ class C16(Prop):
                 out.group_vrnt()
             return out
 
-        return [
+        # --- round 4: the classes behind D30 and the second batch of independent changes; base classes -----------
+        import importlib
+        import pathlib
+        TP, GM, EG = M["tp"], M["gmat"], M["egmap"]
+        mod_of = lambda cls: importlib.import_module(cls.__module__)
+
+        def tp_to_hdf5_no_group(self, filename, groupname=None, overwrite=True):
+            # the protocol writes nothing and does not make its group either (D30 before the repair)
+            if isinstance(filename, (str, pathlib.Path)):
+                M["h5py"].File(filename, "a").close()
+
+        def write_meta_only_when_present(h5file, groupname, in_dict, overwrite=True):
+            # the class hands over the group metadata only when there are any: an ungrouped object written over a
+            # grouped one no longer deletes the four datasets
+            d2 = {k: v for k, v in in_dict.items() if not (v is None and k.startswith("taxa_grp_"))}
+            return h5util.h5py_File_write_dict(h5file, groupname, d2, overwrite)
+
+        def write_scale_snapped(h5file, groupname, in_dict, overwrite=True):
+            d2 = dict(in_dict)
+            if isinstance(d2.get("scale"), numpy.ndarray):
+                d2["scale"] = numpy.where(numpy.isclose(d2["scale"], 1.0), 1.0, d2["scale"])
+            return h5util.h5py_File_write_dict(h5file, groupname, d2, overwrite)
+
+        gm_from_vcf = GM.from_vcf.__func__
+
+        def from_vcf_primary_id(cls, filename, auto_group_vrnt=True):
+            out = gm_from_vcf(cls, filename, auto_group_vrnt=auto_group_vrnt)
+            out._vrnt_name = numpy.array([x.split(";")[0] for x in out.vrnt_name], dtype=object)
+            return out
+
+        def from_vcf_drop_filtered(cls, filename, auto_group_vrnt=True):
+            keep = [i for i, v in enumerate(cyvcf2.VCF(filename)) if v.FILTER is None]
+            out = pg_from_vcf(cls, filename, auto_group_vrnt=False)
+            if 0 < len(keep) < out.nvrnt:
+                out = out.select_vrnt(numpy.array(keep))
+            if auto_group_vrnt:
+                out.group_vrnt()
+            return out
+
+        gm_to_hdf5 = GM.to_hdf5
+
+        def gm_to_hdf5_truncating(self, filename, groupname=None, overwrite=True):
+            if isinstance(filename, (str, pathlib.Path)) and os.path.exists(filename):
+                os.remove(filename)                                          # file opened with "w" instead of "a"
+            return gm_to_hdf5(self, filename, groupname, overwrite)
+
+        orig_read_dict = h5util.h5py_File_read_dict
+
+        def read_dict_floats(h5file, fieldname):
+            out = orig_read_dict(h5file, fieldname)
+            return {k: (float(v) if isinstance(v, numpy.number) else v) for k, v in out.items()}
+
+        eg_to_pandas = EG.to_pandas
+
+        def eg_to_pandas_stop_is_pos(self, *a, **kw):
+            df = eg_to_pandas(self, *a, **kw)
+            df[kw.get("vrnt_stop_col", "stop")] = df[kw.get("vrnt_phypos_col", "pos")]
+            return df
+
+        TT, VR, SQ4 = M["ttmat"], M["vrmat"], M["sq4"]
+
+        def raw_as_object(h5file, fieldname):
+            return numpy.array(h5file[fieldname][()], dtype=object)          # bytes, not str
+
+        vr_deep = VR.__deepcopy__
+
+        def vr_deep_shares_mask(self, memo=None):
+            out = vr_deep(self, memo)
+            out._vrnt_mask = self._vrnt_mask
+            return out
+
+        sq4_copy = SQ4.__copy__
+
+        def sq4_copy_spix_from_stix(self):
+            out = sq4_copy(self)
+            out._taxa_grp_spix = pycopy.copy(self._taxa_grp_stix)
+            return out
+
+        DM = M["dmat"]
+        dm_deep = DM.__deepcopy__
+
+        def dm_deep_view(self, memo=None):
+            out = dm_deep(self, memo)
+            out._mat = self._mat[...]                                        # a view of the source buffer
+            return out
+
+        sg_from_pandas = SG.from_pandas.__func__
+
+        def sg_from_pandas_positions_shifted(cls, df, *a, **kw):
+            # a column given by POSITION is looked up one place to the left for the genetic positions
+            if isinstance(kw.get("vrnt_genpos_col"), int) and kw["vrnt_genpos_col"] > 0:
+                kw["vrnt_genpos_col"] -= 1
+            return sg_from_pandas(cls, df, *a, **kw)
+
+        round4 = [
+            ("gmap_from_pandas_integer_column_shifted", lambda: patch_attr(SG, "from_pandas", classmethod(sg_from_pandas_positions_shifted))),
+            ("tp_to_hdf5_makes_no_group", lambda: patch_attr(TP, "to_hdf5", tp_to_hdf5_no_group)),
+            ("taxa_matrix_metadata_only_when_grouped",
+             lambda: patch_attr(mod_of(M["tmat"]), "h5py_File_write_dict", write_meta_only_when_present)),
+            ("bv_scale_snapped_to_one", lambda: patch_attr(mod_of(BV), "h5py_File_write_dict", write_scale_snapped)),
+            ("vcf_unphased_primary_identifier_only", lambda: patch_attr(GM, "from_vcf", classmethod(from_vcf_primary_id))),
+            ("vcf_filtered_records_dropped", lambda: patch_attr(PG, "from_vcf", classmethod(from_vcf_drop_filtered))),
+            ("to_hdf5_truncates_the_file", lambda: patch_attr(GM, "to_hdf5", gm_to_hdf5_truncating)),
+            ("read_dict_numbers_as_float", lambda: patch_name("h5py_File_read_dict", read_dict_floats)),
+            ("egmap_stop_column_from_positions", lambda: patch_attr(EG, "to_pandas", eg_to_pandas_stop_is_pos)),
+            ("base_taxa_trait_reader_bytes",
+             lambda: patch_attr(mod_of(TT), "h5py_File_read_ndarray_utf8", raw_as_object)),
+            ("base_variant_deepcopy_shares_mask", lambda: patch_attr(VR, "__deepcopy__", vr_deep_shares_mask)),
+            ("base_sq4_copy_spix_from_stix", lambda: patch_attr(SQ4, "__copy__", sq4_copy_spix_from_stix)),
+            ("base_matrix_deepcopy_returns_view", lambda: patch_attr(DM, "__deepcopy__", dm_deep_view)),
+        ]
+
+        return round4 + [
             ("write_dict_skip_delete_existing", lambda: patch_name("h5py_File_write_dict", write_no_delete)),
             ("write_dict_keep_first_dataset", lambda: patch_name("h5py_File_write_dict", write_keep_first)),
             ("write_dict_group_collapsed", lambda: patch_name("h5py_File_write_dict", write_wrong_group)),
